@@ -160,6 +160,22 @@ Definition read_args_tokens_s (ls : slex) (s : list ch) (ln : Z) : res (list (op
     else Ok (ts, s3, ln3, sl_add_log ls (zs "[ERROR](" ++ show_int ln3 ++ zs ") " ++ msg_en_MissingParenthesis))
   else Ok (ts, s2, ln2, ls).
 
+(* read_for: the increment of a FOR header ends at the ')' that closes the header; parentheses inside it (level) belong
+   to it.  Consumes up to and including that ')', counting lines. *)
+Fixpoint get_token_close (s : list ch) (ln : Z) (level : nat) : list ch * list ch * Z :=
+  match s with
+  | [] => ([], [], ln)
+  | c :: r =>
+      let ln' := if c =? 10 then ln + 1 else ln in
+      if c =? 40 then let '(t, r', ln'') := get_token_close r ln' (S level) in (c :: t, r', ln'')
+      else if c =? 41 then
+        match level with
+        | O => ([], r, ln')
+        | S k => let '(t, r', ln'') := get_token_close r ln' k in (c :: t, r', ln'')
+        end
+      else let '(t, r', ln'') := get_token_close r ln' level in (c :: t, r', ln'')
+  end.
+
 (* read_warning / read_error / read_error_cmd *)
 Definition read_warning_s (ls : slex) (s : list ch) (ln : Z) (cmd reason : list ch) : slex :=
   sl_add_log ls (zs "[WARN](" ++ show_int ln ++ zs ") " ++ msg_en_ScriptSyntaxWarning ++ zs " """ ++ cmd ++ zs """ " ++ reason
@@ -383,7 +399,7 @@ Fixpoint slex_f (fuel : nat) (ls : slex) (src : list ch) (lineno : Z) : res slex
                      if negb (eq_char s2 40) then Unsupported U_SYNTAX else
                      let '(init_raw, s3, ln3) := get_token_ch 59 (tl s2) ln2 in
                      let '(cond_s, s4, ln4) := get_token_ch 59 s3 ln3 in
-                     let '(inc_s, s5, ln5) := get_token_ch 41 s4 ln4 in
+                     let '(inc_s, s5, ln5) := get_token_close s4 ln4 0 in     (* up to the ')' that closes the header *)
                      let '(s6, ln6) := skip_space_ret s5 ln5 in
                      if negb (eq_char s6 123) then Unsupported U_SYNTAX else
                      let '(body_s, s7, ln7) := LexCore.get_token_nest s6 ln6 123 125 in
